@@ -1,3 +1,8 @@
 impl From<InvalidResponseKind> for io::Error { fn from(kind: InvalidResponseKind) -> io::Error { unimplemented!() } }
 impl From<InvalidResponseKind> for Error { fn from(kind: InvalidResponseKind) -> Error { unimplemented!() } }
 impl From<io::Error> for Error { fn from(e: io::Error) -> Error { unimplemented!() } }
+//@@ ifdef errorkind
+impl From<ErrorKind> for Error { fn from(k: ErrorKind) -> Error { unimplemented!() } }
+impl From<http::header::InvalidHeaderValue> for Error { fn from(k: http::header::InvalidHeaderValue) -> Error { unimplemented!() } }
+impl From<std::convert::Infallible> for Error { fn from(k: std::convert::Infallible) -> Error { unimplemented!() } }
+//@@ endif
